@@ -271,6 +271,29 @@ def check_tree(b, bp, ref, mi, tree, classes, res: Result, w, routes=ROUTES):
         bpp = bp_presence(b, mi, m2)
         rp = ref_presence(b, mi, r2)
         res.note("presence_compared")
+        # the same message travelling through the size-delimited entry points (dump / load with SIZE_DELIMITED, two frames)
+        # must report the same presence as through bytes / parse
+        try:
+            import io
+
+            if route not in ("ctor", "attr"):
+                raise StopIteration
+            s_ = io.BytesIO()
+            m.dump(s_, betterproto.SIZE_DELIMITED)
+            m.dump(s_, betterproto.SIZE_DELIMITED)
+            s_.seek(0)
+            for k_ in range(2):
+                m3 = cls().load(s_, betterproto.SIZE_DELIMITED)
+                if bp_presence(b, mi, m3) != bpp or bytes(m3) != bytes(m2):
+                    res.violation("presence-after-decode", [route, "size-delimited-entry-point", "differs-from-parse"],
+                                  f"{mi.full_name}: frame {k_} of dump/load SIZE_DELIMITED gives presence {bp_presence(b, mi, m3)} / bytes {bytes(m3).hex()[:100]}, parse gives {bpp} / {bytes(m2).hex()[:100]}", ww)
+                    break
+            res.note("presence_compared_delimited")
+        except StopIteration:
+            pass
+        except Exception as e:
+            res.violation("presence-after-decode", [route, "size-delimited-entry-point", "raised:" + type(e).__name__],
+                          f"{mi.full_name}: dump/load SIZE_DELIMITED of a message that bytes/parse handle: {e!r}; bytes {data.hex()[:120]}", ww)
         for n, have in rp.items():
             fi = mi.field(n)
             if n in bpp and bpp[n] != have:
